@@ -11,7 +11,7 @@ import sys
 from coqemit import cbool, clist, cnat, copt, cpair, cstr, cstrlist
 
 ID = "C08"
-FACTS = ["History"]
+FACTS = ["History", "Conflicts"]
 RULE = ("histories over a pool of 2 parsers (thorough: 3) and the alphabet {construct(settings, config-path flag), add_arguments, "
         "parse(valid argv), parse(invalid argv), print_help, format_help}: every well-formed abstract history of length <= 4 "
         "(thorough <= 5) is enumerated (slots first used in order; of the maximal-length ones without any parse one in ten is kept); "
@@ -21,7 +21,7 @@ RULE = ("histories over a pool of 2 parsers (thorough: 3) and the alphabet {cons
         "written in the parser's OWN spelling, optionally naming config files; invalid argv = unknown option, non-int, missing value, "
         "bad choice (the SET-UP fails), bad/short/repeated tuple, field of the other subgroup, stray word, missing or extension-less file, foreign "
         "spelling, --help/-h); plus the standing witnesses of the known defects, the Example of Properties/C08.v and 150 (thorough "
-        "2000) random histories of length 5-10 (thorough 5-12) and 80 (thorough 1200) histories of 2-3 parsers that each get a dataclass with its own Enum class - or all the SAME dataclass (subgroup / tuple / plain) - and are set up and parsed one after the other. EACH HISTORY RUNS IN ITS OWN PROCESS; every parse is compared with "
+        "2000) random histories of length 5-10 (thorough 5-12) and 80 (thorough 1200) histories of 2-3 parsers that each get a dataclass with its own Enum class - or all the SAME dataclass (subgroup / tuple / plain) - and are set up and parsed one after the other. Plus 160 (thorough 2400) histories of a parser that reads process-global settings - a WITHOUT_ROOT parser with a config-path argument and root-less files, or the same field names at two destinations (AUTO/EXPLICIT/NONE) so that set-up needs the conflict resolver - with a differently configured parser constructed (and used) at every position: before its first parse, between its add_arguments calls, between its parses. EACH HISTORY RUNS IN ITS OWN PROCESS; every parse is compared with "
         "the model AND with a fresh-process run of the same definition + argv (the property's own oracle). Non-trivial = a parse "
         "preceded, since its parser was constructed, by another parse/help of that parser, a late add_arguments or the construction "
         "of another parser; distinct by full case.")
@@ -31,10 +31,13 @@ TRUSTED = ["harness/c08_driver.py: each history and each oracle run executes in 
            "the slice of argparse (CPython 3.12) in Model/History.v: exact and abbreviated long options, nargs None/2/'*', choices, "
            "int/str conversion, left-to-right error order, help action",
            "read_file: a name without the .json suffix raises RuntimeError, a missing .json file FileNotFoundError"]
-ASSUMPTIONS = ["argv tokens are canonical naturals, lower-case words/file names, long options without '=' and '-h' (in_scope checks it)",
-               "a parser with the config-path argument uses NestedMode.DEFAULT, and config files are only named once dest 'a' is declared "
-               "(other combinations hit unrelated set_defaults paths); field names are disjoint across the two destinations, so the "
-               "conflict resolver has nothing to do",
+ASSUMPTIONS = ["argv tokens are canonical naturals, lower-case words/file names, upper-case Enum member names, long options without '=' and '-h' (in_scope checks it)",
+               "config files: a WITHOUT_ROOT parser holding exactly one dataclass (at dest 'a', no subgroup field) names root-less files "
+               "({field: value}), every other parser rooted ones ({dest: {field: value}}) and only once dest 'a' is declared; the other "
+               "combinations raise or leave stray namespace attributes, paths the model does not follow. Only --config_path files, not the "
+               "constructor's config_path=",
+               "shared field names across the two destinations go through the conflict resolver model of C03 (Model/OptStr.v with the "
+               "regenerated constants of Gen/FactsConflicts.v); tuple / Enum / subgroup classes only at dest 'a'",
                "threads are not modelled: the library has no synchronisation and the property's schedules are API-call interleavings"]
 EXHAUSTIVE = {"quick": False, "thorough": False}
 
@@ -78,7 +81,27 @@ def enum_render(ename, member):
 def enum_default(shape, ename):
     ms = [m for m, _ in ENUMS[ename]["members"]]
     return {"list": "list()", "opt": "none", "pair": f"tuple({enum_render(ename, ms[0])},{enum_render(ename, ms[1])})"}[shape]
-FILES = {"c1.json": {"a": {"my_x": 7}}, "c2.json": {"a": {"my_x": 8}}}
+# rooted files ({dest: {field: value}}) and root-less ones ({field: value}): a WITHOUT_ROOT parser holding ONE dataclass
+# re-roots the content of a file under its destination, every other parser expects rooted files
+FILES = {"c1.json": {"a": {"my_x": 7}}, "c2.json": {"a": {"my_x": 8}}, "r1.json": {"my_x": 17}, "r2.json": {"my_x": 18}}
+ROOTED, ROOTLESS = ["c1.json", "c2.json"], ["r1.json", "r2.json"]
+
+
+def file_value(name):
+    c = FILES[name]
+    return c["my_x"] if "my_x" in c else c["a"]["my_x"]
+
+
+def files_for(pdef):
+    """the config files a parser with this definition may name (None: none), by the rules of CorrC08.in_scope"""
+    cfg, cfgarg, adds = pdef
+    if not cfgarg:
+        return None
+    if cfg["nm"] == "WITHOUT_ROOT" and len(adds) == 1:
+        c, d = adds[0]
+        ok = d == "a" and not any(kd == "sub" for _, kd, _ in CLASSES[c])
+        return ROOTLESS if ok else None
+    return ROOTED if any(d == "a" for _, d in adds) else None
 DASH = ["AUTO", "DASH", "UNDERSCORE_AND_DASH"]
 GEN = ["FLAT", "NESTED", "BOTH"]
 NM = ["DEFAULT", "WITHOUT_ROOT"]
@@ -144,7 +167,8 @@ def coq_class(cname):
 def coq_files():
     rows = []
     for fname, content in FILES.items():
-        kvs = [cpair(cstr(f"{dest}.{k}"), cstr(f"int:{v}")) for dest, d in content.items() for k, v in d.items()]
+        kvs = [cpair(cstr(f"{k}.{k2}"), cstr(f"int:{v2}")) for k, v in content.items() if isinstance(v, dict) for k2, v2 in v.items()]
+        kvs += [cpair(cstr(k), cstr(f"int:{v}")) for k, v in content.items() if not isinstance(v, dict)]
         rows.append(cpair(cstr(fname), clist(kvs)))
     return clist(rows)
 
@@ -194,9 +218,13 @@ def groups_for(rng, cfg, adds, spell_cfg=None):
     """one [option, values...] group per settable field of the parser, spelled under spell_cfg (default: its own)"""
     sc = spell_cfg or cfg
     groups = {}
+    all_names = [n for c, _ in adds for n, _, _ in CLASSES[c]]
     for cname, dest in adds:
         for fname_, kind, d in CLASSES[cname]:
             o = rng.choice(spellings(sc, [dest], fname_))
+            if all_names.count(fname_) > 1 and cfg.get("cr", "AUTO") != "NONE":
+                # a shared name: the resolver prefixes the option with the destination, whatever the generation mode
+                o = rng.choice(spellings({"dash": sc["dash"], "gen": "NESTED", "nm": "DEFAULT"}, [dest], fname_))
             name = fname_ if fname_ not in groups else f"{fname_}@{dest}"
             if kind == "int":
                 groups[name] = [o, rng.choice(VALUES_INT)]
@@ -228,8 +256,9 @@ def valid_argv(rng, pdef):
         seq.append(groups[n])
         if n + ":alt" in groups and rng.random() < 0.6:
             seq.append(groups[n + ":alt"])
-    if cfgarg and any(d == "a" for _, d in adds) and rng.random() < 0.6:
-        seq.append(["--config_path"] + rng.choice([["c1.json"], ["c2.json"], ["c1.json", "c2.json"], ["c2.json", "c1.json"], []]))
+    fl = files_for(pdef)
+    if fl and rng.random() < 0.6:
+        seq.append(["--config_path"] + rng.choice([[fl[0]], [fl[1]], [fl[0], fl[1]], [fl[1], fl[0]], []]))
     rng.shuffle(seq)
     return [t for g in seq for t in g]
 
@@ -247,7 +276,8 @@ def invalid_argv(rng, pdef):
         kinds += ["bad-tuple", "short-tuple", "two-tuples"]
     if "model" in groups:
         kinds += ["bad-choice", "bad-choice", "bad-choice", "wrong-alt"]      # an invalid key makes the SET-UP fail
-    if cfgarg and any(d == "a" for _, d in adds):
+    fl = files_for(pdef)
+    if fl:
         kinds += ["missing-file", "missing-file"]
     enum_fields = sorted(k[:-len(":enum")] for k in groups if k.endswith(":enum"))
     if enum_fields:
@@ -291,8 +321,8 @@ def invalid_argv(rng, pdef):
         dest = [d for c, d in adds if c == "K4"][0]
         return groups["model"] + [rng.choice(spellings(cfg, [dest, "model"], other[2])), "4"]
     if kind == "missing-file":
-        return ["--config_path"] + rng.choice([["nofile.json"], ["c1.json", "nofile.json"], ["nofile.json", "c1.json"],
-                                               ["c1.json", "notes"], ["c2"]])
+        return ["--config_path"] + rng.choice([["nofile.json"], [fl[0], "nofile.json"], ["nofile.json", fl[0]],
+                                               [fl[0], "notes"], ["c2"]])
     raise AssertionError(kind)
 
 
@@ -315,14 +345,15 @@ def concretise(rng, abstract, enum_bias=False, force_a=None):
         if sym == "C":
             cfg = random_cfg(rng)
             cfgarg = rng.random() < 0.25
-            if cfgarg:
-                cfg["nm"] = "DEFAULT"
-            if rng.random() < 0.15:               # no conflict resolution: a shared field name makes every set-up raise
+            if cfgarg and rng.random() < 0.4:
+                cfg["nm"] = "WITHOUT_ROOT"        # config files of such a parser are re-rooted under its only destination
+            r = rng.random()
+            if r < 0.15:                          # no conflict resolution: a shared field name makes every set-up raise
                 cfg["cr"] = "NONE"
+            elif r < 0.25:
+                cfg["cr"] = "EXPLICIT"
             if defs and rng.random() < 0.25:      # the same settings as an existing parser
                 cfg = dict(rng.choice(list(defs.values()))[0])
-                if cfgarg:
-                    cfg["nm"] = "DEFAULT"
             defs[slot] = (cfg, cfgarg, [])
             ops.append(["construct", slot, cfg, cfgarg])
             continue
@@ -341,8 +372,8 @@ def concretise(rng, abstract, enum_bias=False, force_a=None):
                 cname = rng.choice(E_CLASSES)       # once one Enum class is around, the others tend to follow
             if dest == "a" and force_a:
                 cname = force_a
-            if dest == "b" and cfg.get("cr") == "NONE" and rng.random() < 0.6:
-                cname = "L3"
+            if dest == "b" and rng.random() < (0.6 if cfg.get("cr") == "NONE" else 0.25):
+                cname = rng.choice(["L3", "K1", "K2"])      # a field name shared with dest a: set-up needs the conflict resolver
             adds.append((cname, dest))
             ops.append(["add", slot, cname, dest])
         elif sym == "PV":
@@ -353,6 +384,59 @@ def concretise(rng, abstract, enum_bias=False, force_a=None):
             ops.append(["print_help", slot])
         elif sym == "F":
             ops.append(["format_help", slot])
+    return ops
+
+
+def special_history(rng, kind):
+    """One parser that depends on process-global settings at set-up / at every parse, with constructions (and uses) of a
+    DIFFERENTLY configured parser at every position: before its first parse, between its parses.
+    kind "noroot": WITHOUT_ROOT parser with a config-path argument and root-less files (re-rooting reads a nested mode);
+    kind "clash":  the same field names at two destinations, so that set-up needs the conflict resolver (which reads the
+                   generation mode / dash variant)."""
+    if kind == "noroot":
+        cfg0 = {"dash": rng.choice(DASH), "gen": rng.choice(GEN), "nm": "WITHOUT_ROOT"}
+        cfgarg0, adds0 = True, [(rng.choice(["K1", "K2", "K2", "K3", "E1"]), "a")]
+        cfg1 = {"dash": rng.choice(DASH), "gen": rng.choice(GEN), "nm": "DEFAULT"}
+    else:
+        cfg0 = {"dash": rng.choice(DASH), "gen": rng.choice(["FLAT", "FLAT", "BOTH", "NESTED"]), "nm": rng.choice(["DEFAULT", "DEFAULT", "WITHOUT_ROOT"]),
+                "cr": rng.choice(["AUTO", "AUTO", "EXPLICIT", "NONE"])}
+        cfgarg0 = rng.random() < 0.2
+        adds0 = [(rng.choice(["K1", "K2", "K2", "K4"]), "a"), (rng.choice(["K1", "K2", "L3"]), "b")]
+        cfg1 = other_cfg(rng, cfg0)
+        if rng.random() < 0.7:
+            cfg1["gen"] = rng.choice([g for g in GEN if g != cfg0["gen"]])
+    def0 = (cfg0, cfgarg0, [])
+    body = [["construct", 0, cfg0, cfgarg0]] + [["add", 0, c, d] for c, d in adds0]
+    tail = []
+    for _ in range(rng.choice([1, 2, 2, 3])):
+        tail.append(rng.choice(["PV", "PV", "PV", "PI", "H"]))
+    other = [["construct", 1, cfg1, rng.random() < 0.15]]
+    if rng.random() < 0.5:
+        oc = rng.choice(["K1", "K2", "K4", "E2"])
+        other.append(["add", 1, oc, "a"])
+        if rng.random() < 0.6:
+            other.append(["parse", 1, valid_argv(rng, (cfg1, other[0][3], [(oc, "a")]))])
+    # positions: somewhere after construct 0 (possibly between its add_arguments calls), before or between the parses
+    slots = list(range(1, len(body) + len(tail) + 1))
+    cut = rng.choice(slots)
+    seq = [("op", o) for o in body] + [("sym", t) for t in tail]
+    seq = seq[:cut] + [("op", o) for o in other] + seq[cut:]
+    if rng.random() < 0.3:                                   # the other parser is constructed once more later on
+        seq.insert(rng.randrange(cut, len(seq) + 1), ("op", ["construct", 1, dict(cfg1), False]))
+    ops, adds = [], []
+    for k, x in seq:
+        if k == "op":
+            ops.append(x)
+            if x[0] == "add" and x[1] == 0:
+                adds.append((x[2], x[3]))
+            continue
+        d = (cfg0, cfgarg0, list(adds))
+        if x == "PV":
+            ops.append(["parse", 0, valid_argv(rng, d)])
+        elif x == "PI":
+            ops.append(["parse", 0, invalid_argv(rng, d)])
+        else:
+            ops.append(["print_help", 0])
     return ops
 
 
@@ -426,6 +510,25 @@ WITNESSES = [
     # the config_path attribute of the result is this call's (repaired by /repo 0277e53)
     [["construct", 0, dict(DEFAULT_CFG), True], ["add", 0, "K1", "a"], ["parse", 0, ["--config_path", "c1.json", "--my_x", "3"]],
      ["parse", 0, ["--my_x", "3"]], ["parse", 0, ["--config_path", "--my_x", "3"]]],
+    # (seeded C08-06) the nested mode set_defaults looks at must be the parser's own: WITHOUT_ROOT parser + root-less file,
+    # another parser constructed before its first parse / before its add_arguments
+    [["construct", 0, {"dash": "AUTO", "gen": "FLAT", "nm": "WITHOUT_ROOT"}, True], ["add", 0, "K2", "a"],
+     ["construct", 1, dict(DEFAULT_CFG), False], ["parse", 0, ["--config_path", "r1.json"]]],
+    [["construct", 0, {"dash": "AUTO", "gen": "FLAT", "nm": "WITHOUT_ROOT"}, True], ["construct", 1, dict(DEFAULT_CFG), False],
+     ["add", 0, "K1", "a"], ["add", 1, "K1", "a"], ["parse", 0, ["--config_path", "r2.json", "r1.json", "--my_x", "3"]],
+     ["parse", 1, ["--my_x", "4"]]],
+    [["construct", 0, dict(DEFAULT_CFG), True], ["add", 0, "K2", "a"],
+     ["construct", 1, {"dash": "AUTO", "gen": "FLAT", "nm": "WITHOUT_ROOT"}, False], ["parse", 0, ["--config_path", "c1.json"]]],
+    # (seeded C03-06) the conflict resolver must read the parser's own settings: the same class at two destinations,
+    # another parser with another generation mode constructed before the first parse
+    [["construct", 0, dict(DEFAULT_CFG), False], ["add", 0, "K2", "a"], ["add", 0, "K2", "b"],
+     ["construct", 1, {"dash": "AUTO", "gen": "NESTED", "nm": "DEFAULT"}, False], ["parse", 0, ["--a.my_x", "3", "--b.name", "q"]],
+     ["parse", 0, []]],
+    [["construct", 0, {"dash": "AUTO", "gen": "FLAT", "nm": "DEFAULT", "cr": "EXPLICIT"}, False], ["add", 0, "K1", "a"],
+     ["construct", 1, {"dash": "DASH", "gen": "NESTED", "nm": "DEFAULT"}, False], ["add", 0, "K1", "b"], ["print_help", 0],
+     ["parse", 0, ["--b.my_x", "4"]]],
+    [["construct", 0, dict(NONE_CFG), False], ["add", 0, "K1", "a"], ["add", 0, "L3", "b"],
+     ["construct", 1, {"dash": "AUTO", "gen": "NESTED", "nm": "DEFAULT"}, False], ["parse", 0, []]],
     # benign: three parsers interleaved (the Example of Properties/C08.v)
     [["construct", 0, {"dash": "DASH", "gen": "FLAT", "nm": "DEFAULT"}, False], ["add", 0, "K2", "a"], ["parse", 0, ["--my-x", "4"]],
      ["construct", 1, dict(DEFAULT_CFG), True], ["add", 1, "K4", "a"], ["add", 1, "L1", "b"],
@@ -476,6 +579,10 @@ def gen(tier, seed):
         ops = concretise(erng, h, enum_bias=same is None, force_a=same)
         if ops:
             cases.append({"ops": ops})
+    # a parser that reads process-global settings (re-rooting of config files / conflict resolution) with another,
+    # differently configured parser constructed at every position
+    for i in range(160 if tier == "quick" else 2400):
+        cases.append({"ops": special_history(random.Random(rng.random()), "noroot" if i % 2 else "clash")})
     syms = ["C", "A", "A", "PV", "PV", "PV", "PI", "H", "F"]
     for _ in range(nlong):
         n = rng.randint(5, longmax)
@@ -618,7 +725,7 @@ def _files_applied(argv):
         elif taking:
             if t not in FILES:
                 break
-            vals.append(FILES[t]["a"]["my_x"])
+            vals.append(file_value(t))
     return vals
 
 
@@ -715,13 +822,15 @@ def classify(case, obs, k, why="diverges"):
     fresh_setup_failed = bool(fr.get("in_setup"))
 
     # (late add_arguments) options only the fresh parser has, all of dataclasses added AFTER the set-up
-    late_part = {x for x in opt_diff if x in f_opts and _fid(x) in late_ids}
+    early_ids_all = {i for c, _, l in adds if not (l and o.get("done_before")) for i in ids_of(c)}
+    # ... plus the options of earlier dataclasses that a fresh parser renames because the late dataclass shares their names
+    late_part = {x for x in opt_diff if _fid(x) in late_ids and (x in f_opts or _fid(x) in early_ids_all)}
     if fresh_setup_failed and late_dests:
         # the fresh parser could not even be set up (its registered options say nothing); a NONE-mode clash brought in by
         # the late dataclass is such a failure, and the history must not have registered any option of a late dataclass
         early_ids = {i for c, _, l in adds if not l for i in ids_of(c)}
         clash = any(ids_of(c1) & ids_of(c2) for c1, d1 in late_dests for c2, d2, _ in adds if d2 != d1)
-        if f == ["raise", "ConflictResolutionError"] and clash and case["ops"][start][2].get("cr") == "NONE" \
+        if f == ["raise", "ConflictResolutionError"] and clash \
                 and not any(_fid(x) in late_ids - early_ids for x in h_opts):
             return "setup-frozen:late-add"
         if r == ["raise", "AttributeError"] and "_remove_subgroups_from_namespace" in o.get("tb", []) \
@@ -893,7 +1002,7 @@ def to_coq(case, obs):
     ops = []
     for op in case["ops"]:
         if op[0] == "construct":
-            cr = {"AUTO": "CRAuto", "NONE": "CRNone"}[op[2].get("cr", "AUTO")]
+            cr = {"AUTO": "CRAuto", "NONE": "CRNone", "EXPLICIT": "CRExplicit"}[op[2].get("cr", "AUTO")]
             ops.append(f"Construct {cnat(op[1])} {coq_cfg(op[2])} {cr} {cbool(op[3])}")
         elif op[0] == "add":
             ops.append(f"AddArgs {cnat(op[1])} cls_{op[2]} {cstr(op[3])}")
